@@ -77,6 +77,19 @@ def _contract_worker(args):
     return out
 
 
+def _static_worker(name):
+    from pyvc import run as R
+    from pyvc.contract import STATIC
+
+    R.load_sidecars()
+    t0 = time.time()
+    try:
+        rows = STATIC[name]["fn"]()
+        return dict(name=name, rows=rows, error=None, wall=round(time.time() - t0, 2))
+    except Exception as ex:
+        return dict(name=name, rows=[], error=f"{type(ex).__name__}: {ex}\n{traceback.format_exc()[-800:]}", wall=0)
+
+
 def _lemma_worker(_):
     from pyvc import lemmas
 
@@ -106,7 +119,7 @@ def main():
     t0 = time.time()
 
     from pyvc import run as R
-    from pyvc.contract import REGISTRY, contract_props
+    from pyvc.contract import REGISTRY, STATIC, contract_props
 
     try:
         R.load_sidecars()
@@ -118,7 +131,8 @@ def main():
     import bounded
 
     standins = bounded.standins_for(pid)
-    if not targets and not standins:
+    statics = [n for n, sc in STATIC.items() if pid in sc["props"]]
+    if not targets and not standins and not statics:
         print(f"CHECKER-FAULT property={pid}: no contract serves this property")
         return 3
 
@@ -129,6 +143,7 @@ def main():
         need_lemmas = any(REGISTRY[t].uses for t in targets)
         lf = ex.submit(_lemma_worker, 0) if need_lemmas else None
         sf = [(s, ex.submit(bounded.run_standin, s["name"], pid, tier, seed)) for s in standins]
+        stf = [ex.submit(_static_worker, n) for n in statics]
         for f in futs:
             results.append(f.result())
         if lf is not None:
@@ -140,9 +155,11 @@ def main():
             except Exception as exn:
                 standin_results.append({"name": s["name"], "error": f"{type(exn).__name__}: {exn}", "passed": 0, "failures": []})
 
+        static_results = [f.result() for f in stf]
+
     from report import finish
 
-    return finish(pid, tier, seed, t0, results, lemma_results, standin_results, load_known_findings())
+    return finish(pid, tier, seed, t0, results, lemma_results, standin_results, load_known_findings(), static_results)
 
 
 if __name__ == "__main__":
